@@ -92,9 +92,13 @@ type distributedEngine struct {
 }
 
 func NewDistributedEngine(opts Opts, endpoints api.RemoteEndpoints) v1.QueryEngine {
+	// The distributed optimizer runs first: it renders the text of the remote
+	// queries from the expression, which has to be plain PromQL at that point.
+	// Nodes added by later optimizers (for example merged selects) do not have a
+	// PromQL text. The other optimizers then work on the part that stays local.
 	opts.LogicalOptimizers = append(
-		opts.LogicalOptimizers,
-		logicalplan.DistributedExecutionOptimizer{Endpoints: endpoints},
+		[]logicalplan.Optimizer{logicalplan.DistributedExecutionOptimizer{Endpoints: endpoints}},
+		opts.LogicalOptimizers...,
 	)
 	return &distributedEngine{
 		endpoints:   endpoints,
